@@ -4,7 +4,10 @@ from collections import Counter, defaultdict
 from .refparams import canon_atoms, SEC_NATOMS
 
 NAT = dict(SEC_NATOMS)
-NAT.update({"virtual_sites2": 3, "virtual_sites3": 4, "virtual_sitesn": None, "settles": 1})
+NAT.update({"virtual_sites2": 3, "virtual_sites3": 4, "virtual_sitesn": None, "settles": 1, "virtual_sites1": 2,
+            "virtual_sites4": 5, "dihedral_restraints": 4, "angle_restraints": 4, "angle_restraints_z": 2,
+            "distance_restraints": 2, "orientation_restraints": 2, "cmap": 5, "polarization": 2,
+            "thole_polarization": 4, "water_polarization": 5, "pairs_nb": 2})
 
 
 def read_itp(path):
@@ -42,6 +45,11 @@ def read_itp(path):
                 out["excl_pairs"].add(frozenset((ats[0], o)))
         else:
             n = NAT.get(sec)
+            if sec == "virtual_sitesn" and len(t) >= 3 and t[1] in ("1", "2"):
+                # site, function, constructing atoms (the site is built from the set of the others)
+                ats = (int(t[0]),) + tuple(int(x) for x in t[2:])
+                out["inter"][sec][(ats, (t[1],), cond)] += 1
+                continue
             if n is None:
                 out["raw"][sec].append((t, cond))
                 continue
